@@ -3394,7 +3394,7 @@ class HasTraits(CHasTraits, metaclass=MetaHasTraits):
                 self.on_trait_change(
                     dict[name],
                     self._trait_delegate_name(
-                        name, self.__class__.__listener_traits__[name][1]
+                        name, self._trait_delegate_pattern(name)
                     ),
                     remove=True,
                 )
@@ -3408,8 +3408,21 @@ class HasTraits(CHasTraits, metaclass=MetaHasTraits):
         # the delegate listener (unless it's already there):
         if name not in dict:
             self._init_trait_delegate_listener(
-                name, 0, self.__class__.__listener_traits__[name][1]
+                name, 0, self._trait_delegate_pattern(name)
             )
+
+    def _trait_delegate_pattern(self, name):
+        """ Returns the listener pattern for the delegate trait 'name'.
+
+        Delegate traits declared on the class are recorded in the class's
+        listener table; ones added later (add_trait, add_class_trait, the
+        implicit 'name_' shadow of a mapped prototype) are not, so derive the
+        pattern from the trait itself, as '_trait_added_changed' does.
+        """
+        listener = self.__class__.__listener_traits__.get(name)
+        if listener is not None:
+            return listener[1]
+        return get_delegate_pattern(name, self.trait(name))
 
     def _init_trait_observers(self):
         """ Initialize observers prior to setting object state.
